@@ -119,7 +119,10 @@ class Ctx:
         if ty is collections.deque:
             return {'deque': [self.enc(v) for v in x]}
         if ty in (collections.Counter, collections.defaultdict, collections.OrderedDict):
-            return {'map': [ty.__name__, [[self.enc(k), self.enc(v)] for k, v in x.items()]]}
+            kind = ty.__name__
+            if ty is collections.defaultdict and x.default_factory is int:
+                kind = 'defaultdict:int'     # a caller-supplied defaultdict whose __missing__ INSERTS (C09)
+            return {'map': [kind, [[self.enc(k), self.enc(v)] for k, v in x.items()]]}
         if ty is Decimal:
             return {'op': ['Decimal', str(x)]}
         if ty is Fraction:
@@ -188,7 +191,8 @@ class Ctx:
             kind, kvs = v
             d = {self.dec(a): self.dec(b) for a, b in kvs}
             return {'Counter': collections.Counter, 'OrderedDict': collections.OrderedDict,
-                    'defaultdict': lambda d: collections.defaultdict(None, d)}[kind](d)
+                    'defaultdict': lambda d: collections.defaultdict(None, d),
+                    'defaultdict:int': lambda d: collections.defaultdict(int, d)}[kind](d)
         if k == 'op':
             ty, r = v
             if ty == 'Decimal':
